@@ -20,7 +20,7 @@ from __future__ import annotations
 
 import ast as pyast
 
-from fpy2.ast.fpyast import Call, ContextStmt, ListComp, Var
+from fpy2.ast.fpyast import Call, ContextStmt, IndexedAssign, ListComp, Var
 from fpy2.function import Function
 from fpy2.interpret.value import from_value, to_value
 from fpy2.number import Context
@@ -104,6 +104,9 @@ class Recorder13(Recorder):
         return value
 
     def on_bind(self, idx, names, env):
+        if isinstance(self.nodes[idx], IndexedAssign) and len(self.reads) < self.max_events:
+            # `xs[i] = e` also *uses* the definition of xs that is current before the store
+            self.reads.append((idx, self.last_writer.get(names[0], -1)))
         for n in names:
             self.last_writer[n] = idx
         if len(self.binds) < self.max_events:
